@@ -1096,7 +1096,7 @@ def r8_tree_builders(rule, root=None):
         if A.strip_generics(ow.get("self_ty") or "") != "Tree" or ow.get("trait") or not dict.get(fn, "body"):
             continue
         t = str(A.ftxt(fn["body"]))
-        m = re.fullmatch(r"\{Self::op_(unary|binary)\((.*),(Unary|Binary)Opcode::(\w+)\)\}", t)
+        m = re.fullmatch(r"\{(?:Self|Tree)::op_(unary|binary)\((.*),(Unary|Binary)Opcode::(\w+)\)\}", t)
         if not m:
             continue
         kind, args, kind2, variant = m.group(1), m.group(2), m.group(3), m.group(4)
